@@ -29,7 +29,7 @@ FAMS = {
     "energy": ["erg", "J", "eV", "keV", "L_sun*s", "g*cm**2/s**2"],
     "luminosity": ["erg/s", "W", "L_sun", "L_bol0", "solar_luminosity", "L_sol"],
     "radiation": ["erg/cm**3/K**4", "ar", "radiation_constant", "J/m**3/K**4"],
-    "dimensionless": ["dimensionless", "cm/m"],
+    "dimensionless": ["dimensionless", "cm/m", "percent", "ppm", "rad", "deg"],
     # pint ships optional "contexts" that make temperature <-> energy (boltzmann) or length <-> frequency <-> energy
     # (spectroscopy) interconvertible; osyris must keep them distinct dimensions
     "temperature": ["K", "mK"],
@@ -78,6 +78,51 @@ def cases(thorough):
         yield {"block": "spelling_sequence", "seq": [a, b, a]}
     yield {"block": "unit_passthrough"}
     yield {"block": "quantity_rejected"}
+    # composite units: every product, quotient and power of base units, grouped by dimension (computed with M2); every ordered
+    # pair inside a group (neighbours only in groups of more than 14 expressions)
+    for u1, u2 in composite_pairs(thorough):
+        yield {"block": "pair", "u1": u1, "u2": u2, "dt": "f8", "shape": "3"}
+
+
+_COMPOSITE = {}
+
+
+def composite_pairs(thorough):
+    key = bool(thorough)
+    if key in _COMPOSITE:
+        return _COMPOSITE[key]
+    bases = ["cm", "km", "au", "pc", "g", "M_sun", "s", "yr", "K", "erg", "eV", "G"]
+    if thorough:
+        bases += ["m", "kg", "Myr", "J", "L_sun", "dyn", "N", "Pa", "Hz", "W", "mG", "R_sun", "M_earth", "day"]
+    exprs = list(bases)
+    for a in bases:
+        for b in bases:
+            exprs.append(f"{a}*{b}")
+            if a != b:
+                exprs.append(f"{a}/{b}")
+        exprs += [f"{a}**2", f"{a}**-1", f"{a}**3"]
+    groups = {}
+    for e in exprs:
+        try:
+            d = tuple(_arr.uinfo(e)[1])
+        except Exception:
+            continue
+        groups.setdefault(d, []).append(e)
+    pairs = []
+    for d, es in sorted(groups.items(), key=lambda kv: str(kv[0])):
+        es = sorted(set(es))
+        if len(es) < 2:
+            continue
+        if len(es) <= 14:
+            pairs += [(a, b) for a in es for b in es if a != b]
+        else:
+            n = len(es)
+            for i, a in enumerate(es):
+                for k in (1, 2, 3, n // 2):
+                    pairs.append((a, es[(i + k) % n]))
+                    pairs.append((es[(i + k) % n], a))
+    _COMPOSITE[key] = sorted(set(pairs))
+    return _COMPOSITE[key]
 
 
 def dims_compatible(u1, u2):
